@@ -37,6 +37,12 @@ var Sizes = types.SizesFor("gc", runtime.GOARCH)
 
 var initOnce sync.Once
 
+// RulesNote / RulesLoaded say whether the dynamic `ruleguard` checker got the user rules of corpus/framework_rules.
+var (
+	RulesNote   string
+	RulesLoaded bool
+)
+
 // TestParams are the parameter values the repository's own suite runs its examples with
 // (checkers/checkers_test.go); the /*! */ expectations of S1 are only valid under them.
 var TestParams = map[string]map[string]interface{}{
@@ -52,6 +58,24 @@ func Infos() []*linter.CheckerInfo {
 			for key, v := range TestParams[info.Name] {
 				if p, ok := info.Params[key]; ok {
 					p.Value = v
+				}
+			}
+			// the dynamic rule checker gets user rules with type / package / import filters (corpus/framework_rules);
+			// rule files import the dsl package, which resolves only when the process runs inside the repository module
+			if info.Name == "ruleguard" {
+				if p, ok := info.Params["rules"]; ok {
+					rules := filepath.Join(Root(), "corpus", "framework_rules", "typed_rules.go")
+					if _, err := os.Stat(rules); err == nil {
+						old := p.Value
+						p.Value = rules
+						if _, err := linter.NewChecker(linter.NewContext(token.NewFileSet(), Sizes), info); err != nil {
+							p.Value = old
+							RulesNote = "user rules for the dynamic ruleguard checker could not be loaded (checker runs without rules): " + firstLine(err.Error())
+						} else {
+							RulesNote = "dynamic ruleguard checker runs with " + rules
+							RulesLoaded = true
+						}
+					}
 				}
 			}
 		}
